@@ -612,7 +612,9 @@ def scenarios(tier, seed):
                     for s, d in seeded_pairs(net[0], rng, k)]
         jobs.append(go)
 
-    def with_spectrum(tag, netname, spectrum_fn, pair=None, permute=True):
+    def with_spectrum(tag, netname, spectrum_fn, pair=None, permute=True, then=()):
+        """then: (name, spectrum_fn) pairs propagated afterwards over the very element objects of the base run (what-if
+        studies on one designed line: each propagation stands for itself, whatever the line carried before)"""
         def go():
             net = network(netname)
             if net is None:
@@ -624,6 +626,8 @@ def scenarios(tier, seed):
             if permute and base[0]['outcome'] == 0 and len(sp) > 1:
                 out.append(record(f'{netname}:{tag}:permuted:{s}->{d}', netname, s, d, permuted(sp, rng),
                                   ref=ref_of(base[0])))
+            for sub, fn in then:
+                out.append(record(f'{netname}:{tag}:then-{sub}:{s}->{d}', netname, s, d, fn(), path_objects=base[1]['path']))
             return out
         jobs.append(go)
 
@@ -722,7 +726,16 @@ def scenarios(tier, seed):
                                    for k in range(40 if thorough else 24)]
                                   + [(hz(-6_100_000 + 75_000 * k), 64e9, 75e9, 'L-64G', 1e-3, 0.0, 38.0, 0.15)
                                      for k in range(30 if thorough else 16)])
-    with_spectrum('mixed-rate-bands', 'multiband', mixed_rate, pair=('trx Site_A', 'trx Site_D'), permute=thorough)
+
+    def moved_up(k):
+        """the plan above after a what-if edit: its k highest L-band carriers moved to free slots right below the C-band
+        comb - as many carriers as before, the same lowest and highest ones, another split between the bands"""
+        plan = list(mixed_rate().items())
+        top_l = sorted(f for f, c in plan if c.label == 'L-64G')[-k:]
+        return dict((hz(-1_200_000 - 75_000 * top_l.index(f)), c) if f in top_l else (f, c) for f, c in plan)
+    with_spectrum('mixed-rate-bands', 'multiband', mixed_rate, pair=('trx Site_A', 'trx Site_D'), permute=thorough,
+                  then=[('5-carriers-moved-from-L-to-C', lambda: moved_up(5))]
+                  + ([('first-plan-again', mixed_rate), ('1-carrier-moved-from-L-to-C', lambda: moved_up(1))] if thorough else []))
     # the same amplifiers met in both orders: wide single-band first / multi-band first
     with_spectrum('multiband_spectrum', 'multiband-wide', mb, pair=('trx Site_L', 'trx Site_D'), permute=thorough)
     with_spectrum('multiband_spectrum', 'multiband-wide', mb, pair=('trx Site_D', 'trx Site_L'), permute=False)
